@@ -285,9 +285,6 @@ func (r *runner) exec(op Op, d *obj.Describer) map[string]any {
 			var v any
 			if out[0].IsValid() && out[0].CanInterface() {
 				v = out[0].Interface()
-				if out[0].Kind() == reflect.Ptr && out[0].IsNil() {
-					v = nil
-				}
 			}
 			if len(out) == 2 && !out[1].IsNil() {
 				return map[string]any{"err": out[1].Interface().(error).Error(), "zero": d.Value(v)}
